@@ -4,6 +4,7 @@
 package main
 
 import (
+	"bytes"
 	"fmt"
 	"math/big"
 )
@@ -64,25 +65,36 @@ func filtersPass(leaf absCert, o opts) (bool, string) {
 	return true, ""
 }
 
-// admissible: every certificate parses; each certificate names and is validly signed by the
-// next one, which must be a CA; the last one is a trusted root (a trust anchor: no CA bit asked)
+// admissible: every submitted byte string is exactly one certificate (strict.go: hand-written
+// framing and the Go standard library's parser, which refuses trailing data); each certificate names
+// and is validly signed by the next one, which must be a CA; the last one is a trusted root (a trust anchor: no CA bit asked)
 // or directly issued by one; all submitted certificates used in the order given, none twice;
 // the leaf passes the filters.
-func admissible(u []absCert, o opts, chain []int) (bool, string) {
+func admissible(u []absCert, o opts, chain []int, ents []entry) (bool, string) {
+	return admissibleF(u, o, chain, ents, func(leaf absCert) (bool, string) { return filtersPass(leaf, o) })
+}
+
+// admissibleF: the same with the verdict on the leaf filters supplied by the caller (config.go
+// evaluates them over the written configuration and the standard library's view of the leaf).
+func admissibleF(u []absCert, o opts, chain []int, ents []entry, filters func(absCert) (bool, string)) (bool, string) {
 	if len(chain) == 0 {
 		return false, "empty"
 	}
 	seen := map[int]bool{}
-	for _, i := range chain {
+	for k, i := range chain {
+		if !ents[k].one {
+			return false, fmt.Sprintf("unparsable at %d/%d (%s)", k, len(chain), ents[k].what)
+		}
 		if i < 0 {
-			return false, "unparsable"
+			// exactly one certificate, yet not one the harness issued: there is no abstraction of it
+			panic("harness: a junk entry is a certificate: " + ents[k].what)
 		}
 		if seen[i] {
 			return false, "duplicate"
 		}
 		seen[i] = true
 	}
-	if ok, why := filtersPass(u[chain[0]], o); !ok {
+	if ok, why := filters(u[chain[0]]); !ok {
 		return false, "filter:" + why
 	}
 	n := len(chain) - 1
@@ -114,7 +126,13 @@ func admissible(u []absCert, o opts, chain []int) (bool, string) {
 	return false, "no-trusted-issuer"
 }
 
-func poisonClass(a absCert) string {
+// poisonClass: absent / critical-null / critical-nonnull / noncritical, from the extensions the Go
+// standard library reads out of the DER, the value compared with the two octets 05 00 (strict.go).
+func poisonClass(a absCert) string { return a.Poison }
+
+// poisonClassAbs: the same over the abstraction given to the Coq model (the fork's parse): the
+// fallback of stdPoisonClass.
+func poisonClassAbs(a absCert) string {
 	for _, x := range a.Exts {
 		if x.ID == 0 {
 			switch {
@@ -243,7 +261,7 @@ func classifyIncomplete(u []absCert, o opts, chain []int) string {
 }
 
 // judgeValidate: the property on one ValidateChain observation.
-func judgeValidate(u []absCert, o opts, chain []int, res obs, adm bool, why string) (bool, string) {
+func judgeValidate(u []absCert, o opts, chain []int, ders [][]byte, res obs, adm bool, why string) (bool, string) {
 	switch res.class {
 	case "panic":
 		if len(chain) == 0 {
@@ -262,6 +280,10 @@ func judgeValidate(u []absCert, o opts, chain []int, res obs, adm bool, why stri
 		for i := range chain {
 			if p[i] != chain[i] {
 				return false, fmt.Sprintf("path-shape: differs at %d", i)
+			}
+			// unchanged: the very bytes that were submitted
+			if !bytes.Equal(res.raw[i], ders[i]) {
+				return false, fmt.Sprintf("path-bytes: differs at %d/%d", i, len(chain))
 			}
 		}
 		if !contains(o.Roots, p[len(p)-1]) {
@@ -306,7 +328,7 @@ func expect200(u []absCert, chain []int, pre bool, adm bool, why string) (bool, 
 
 func isPreIssuer(a absCert) bool { return contains(a.EKUs, 14) }
 
-func judgeHTTP(u []absCert, o opts, chain []int, pre bool, status int, want200 bool, adm bool, why string) (bool, string) {
+func judgeHTTP(u []absCert, o opts, chain []int, pre bool, status int, want200 bool, adm bool, why string, pathWhy string) (bool, string) {
 	ep := "add-chain"
 	if pre {
 		ep = "add-pre-chain"
@@ -319,6 +341,10 @@ func judgeHTTP(u []absCert, o opts, chain []int, pre bool, status int, want200 b
 		return false, fmt.Sprintf("status-%d: via=%s", status, ep)
 	}
 	if got200 == want200 {
+		if got200 && pathWhy != "" {
+			// admitted, but what was handed on is not the submission unchanged and in order
+			return false, "path-bytes: via=" + ep + " " + pathWhy
+		}
 		return true, ""
 	}
 	if got200 {
